@@ -20,7 +20,7 @@ MORE = {
  'C06': '(R06.G/G12) a double sum restricted to a triangle with doubled off-diagonal weight requires a symmetric summand.',
  'C05': '(R05.G/G2) a memo keyed by attributes of its inputs (degree, dof count) while the value is computed from the whole knot vectors.',
  'C04': '(R04.G/G11) indices are scaled between levels by 2**(level difference), never by 2*(level difference).',
- 'C03': '(R03.11 = R04.6) the disparity the level-wise assembly relies on is established by the marking closure started on every level.',
+ 'C03': '(R03.11 = R04.6) the disparity the level-wise assembly relies on is established by the marking closure started on every level. (R03.12) the level spread assemble_matrix searches is justified by every marking mode refine() admits (T-admissible marking bounds the truncated functions only).',
  'C07': "(R07.4) component order of the linearised Hessian; the caller's component index is never applied to the weight column; (R07.5) the fixed coordinate of a boundary function is inserted at position len(x) - axis. (R07.2) views handed out by a method of self through a tuple result are tracked to in-place writes in the caller; (R07.6) the corner weights of every circular arc depend on the angle.",
  'C08': "(R08.4) update() iterates the variable sequence itself; (R08.6 = R01.7) bounding-box offsets in Gauss-node units of the common node count. (R08.4) the constants array is allocated by the generated __init__ only. (R08.7) the d-dimensional generic vector core unpacks d block patterns from the tuple the driver passes. (R08.8) multi_blocks allocates blocks with the shape the kernels write and the driver declares (test x trial components).",
  'C10': "(R10.5) restrict / restrict_rhs / restrict_matrix / extend / complete are compared after inlining with the selection operators they must apply (rows R_free_v, columns R_free). (R10.5) the lifted right-hand side is compared as a matrix-product normal form (order and transposition of the factors); (R10.2) vector Dirichlet values are taken component by component, not by a C-order ravel of the whole array.",
